@@ -12,6 +12,8 @@ CONFIGS = [
     ("std-analytic-uninformed50", "std", {"analytic_priors": True, "maximum_uninformed": 50}),
     ("ins-default", "ins", {}),
     ("ins-strict-variable", "ins", {"strict_threshold": True, "draw_constant": False}),
+    ("std-seed-0", "std", {"seed": 0, "nlive": 50}),     # boundary value of the seed: 0 is a seed, not "no seed"
+    ("ins-seed-0", "ins", {"seed": 0}),
     ("std-nsf-inversion", "std", {"flow_config": {"ftype": "nsf"}, "reparameterisations": {"x0": "inversion", "x1": "default"}, "max_iteration": 400}),
     ("std-augmented", "std", {"flow_proposal_class": "AugmentedFlowProposal", "marginalise_augment": True, "n_marg": 5, "max_iteration": 400}),
     ("std-no-constant-volume", "std", {"constant_volume_mode": False, "nlive": 60}),
@@ -63,7 +65,7 @@ def main():
     assert_repo()
     from vlib.farm import run_cases
 
-    nconf = 6 if chk.quick else len(CONFIGS)
+    nconf = 8 if chk.quick else len(CONFIGS)
     variants = VARIANTS[:6] + [VARIANTS[7], VARIANTS[9], VARIANTS[10], VARIANTS[12], VARIANTS[14], VARIANTS[15]] if chk.quick else VARIANTS
     seeds = [0] if chk.quick else [0, 1, 2]
     cases = []
@@ -72,7 +74,7 @@ def main():
             seed = int(rng_for(chk.seed, "C14", name, si).integers(1, 2**31 - 1))
             for vn, v in variants:
                 k = dict(kw)
-                k["seed"] = seed
+                k.setdefault("seed", seed)
                 cases.append(dict(config=name, sampler=sampler, kwargs=k, vname=vn, variant=v, outdir=os.path.join(chk.scratch, f"{name}-{si}-{vn}"), timeout=400, _timeout=450, si=si))
     if chk.replay_case:
         c = chk.replay_case["case"]
